@@ -155,6 +155,13 @@ def gen_plan_c19(rng: Rng, tier: str, faulty: bool) -> Dict[str, Any]:
                 (cur_sess["zygote"] + 1 + rng.below(len(driver.HASH_SEEDS) - 1)) % len(driver.HASH_SEEDS))
             cur_sess = {"zygote": z, "env": loader.gen_env(rng.fork(f"e{c + 1}"), n_ranks, False), "pre": [],
                         "ops": [_load_op(rng, inc)]}
+            if rng.chance(0.3):
+                # leftovers of an unrelated, earlier extraction in the directory restore will extract into
+                stale = {"trace_data.csv": "_index_,index,ts\n0,0,1\n", "cp_graph.pkl": "not a pickle",
+                         "cp_data.pkl": "", "old_notes.txt": "left behind"}
+                keep = {k: v for k, v in stale.items() if rng.chance(0.7)}
+                cur_sess["pre"].append({"kind": "stale_dir", "files": keep,
+                                        "path": ("/tmp/" + out_dir) if rel_mode else ("@tmp/" + out_dir)})
             sessions.append(cur_sess)
             graph_idx_new = 0
         else:
